@@ -15,7 +15,7 @@ HOf(hs)  == [i \in Leaf |-> ToSet(hs[i])]
 NOf(ns)  == [i \in Leaf |-> [n \in Nuc |-> ns[i][n]]]
 TInit == /\ tid \in 1..NT /\ l = 1
          /\ N = NOf(Traces[tid].init.N) /\ H = HOf(Traces[tid].init.H)
-         /\ tr = FALSE /\ act = [n |-> "Init"] /\ err = ""
+         /\ tr = FALSE /\ act = [n |-> "Init"] /\ err = "" /\ depth = 1
 Ev == Traces[tid].ev[l]
 A  == Ev.a
 Step ==
@@ -36,10 +36,10 @@ ObsMatch == \/ (N' = NOf(Ev.post.N) /\ H' = HOf(Ev.post.H) /\ err' = Ev.post.err
 \* a history ends with {"outside": TRUE} when the real result is not a rational of the model's bounded domain of magnitudes
 \* (LMax / VMax): that is accepted only if the model agrees that the edit leaves the domain (the step is not enabled)
 IsOutside == "outside" \in DOMAIN Ev.post
-TNext == /\ l <= Len(Traces[tid].ev) /\ l' = l + 1 /\ tid' = tid
+TNext == /\ l <= Len(Traces[tid].ev) /\ l' = l + 1 /\ tid' = tid /\ depth' = depth
          /\ IF IsOutside THEN ~(ENABLED Step) /\ UNCHANGED allvars
             ELSE Step /\ ObsMatch
-TSpec == TInit /\ [][TNext]_<<allvars, tid, l>>
+TSpec == TInit /\ [][TNext]_<<allvars, tid, l, depth>>
 Progress == IF TLCGet(tid) < l THEN TLCSet(tid, l) ELSE TRUE
 Report == LET bad == {t \in 1..NT : TLCGet(t) # Len(Traces[t].ev) + 1} IN
           /\ \A t \in bad : PrintT(ToJson([rejected |-> Traces[t].id, matched |-> TLCGet(t) - 1]))
